@@ -223,6 +223,10 @@ func init() {
 					ends = endings[:8]
 				}
 				for _, sp := range endingPrograms("c03", "auto", -1, n, ends, 0) {
+					if n == 2 {
+						items = append(items, specItemsMixed("C03", sp, bound, 1, allStrats, nil, c03Oracle)...)
+						continue
+					}
 					items = append(items, specItems("C03", sp, bound, allStrats, nil, c03Oracle)...)
 				}
 			}
